@@ -345,24 +345,48 @@ def harness():
     return exe
 
 
-def run_both(exe, lines, need_model=True):
+def run_both(exe, lines, driver=None):
+    """-> (native output lines, model output lines or None when no usable driver)"""
     if not lines:
-        return [], ([] if need_model else None)
+        return [], ([] if driver else None)
     rc_c, out_c, err_c = D.run_lines([exe], lines, timeout=900)
     if rc_c != 0:
         raise RuntimeError("fctx_native failed rc=%s: %s" % (rc_c, err_c[-1500:]))
     out_m = None
-    if need_model and os.path.exists(C.driver_exe()):
-        rc_m, out_m, err_m = D.model_lines("x86", lines, timeout=900)
+    if driver:
+        rc_m, out_m, err_m = D.run_lines([driver, "x86"], lines, timeout=900)
         if rc_m != 0:
             out_m = None
     return out_c, out_m
 
 
+def private_driver():
+    """A private copy of the model driver for the duration of this run (other checks may relink
+    lean/.lake/build/bin/driver concurrently).  None if there is no working driver."""
+    import shutil, time
+    src = C.driver_exe()
+    dst = os.path.join(C.BUILD, "fctx", "driver-%d" % os.getpid())
+    os.makedirs(os.path.dirname(dst), exist_ok=True)
+    for _ in range(5):
+        try:
+            shutil.copy2(src, dst)
+            rc, out, _ = D.run_lines([dst, "x86"], ["jump_fcontext rsp=0"], timeout=60)
+            if rc == 0 and out and out[0].startswith("pc="):
+                return dst
+        except OSError:
+            pass
+        time.sleep(1)
+    try:
+        os.unlink(dst)
+    except OSError:
+        pass
+    return None
+
+
 def process_chunk(job):
     """One independent slice of the differential (own PRNG stream): pass 1, pass 2, comparison,
     canaries.  Returns counters and findings only (states are dropped: memory stays bounded)."""
-    seed, idx, n1, exe, have_driver = job
+    seed, idx, n1, exe, driver = job
     rng = C.Rng((seed * 7919 + 2) * 1000003 + idx)
     routines = list(ARGS)
     cov, pairs = collections.Counter(), collections.Counter()
@@ -381,7 +405,7 @@ def process_chunk(job):
         cases1.append((st, info, line_of(st, info)))
         mxs.add(st["mxcsr"])
         cws.add(st["fpucw"])
-    nat1, mod1 = run_both(exe, [c[2] for c in cases1], have_driver)
+    nat1, mod1 = run_both(exe, [c[2] for c in cases1], driver)
     # ---- pass 2 (built from the native pass-1 results)
     cases2 = []
     for i, (st, info, _) in enumerate(cases1):
@@ -397,7 +421,7 @@ def process_chunk(job):
             continue
         st2, info2 = gen_pass2(rng, st, info, o)
         cases2.append((i, st2, info2, line_of(st2, info2)))
-    nat2, mod2 = run_both(exe, [c[3] for c in cases2], have_driver)
+    nat2, mod2 = run_both(exe, [c[3] for c in cases2], driver)
     model_ok = mod1 is not None and mod2 is not None
     ndis = ncan = 0
     # ---- compare + canaries, pass 1
@@ -455,11 +479,15 @@ def run(res, tier, broken):
     n1 = 1400 if tier == "quick" else 140000
     if broken and tier == "quick":
         n1 = 14000          # something no longer checks: search harder for a concrete failing state
-    have_driver = os.path.exists(C.driver_exe())
+    driver = private_driver()
     chunk = 350 if n1 <= 1400 else 1750
-    jobs = [(res.seed, k, min(chunk, n1 - k * chunk), exe, have_driver) for k in range((n1 + chunk - 1) // chunk)]
-    with concurrent.futures.ProcessPoolExecutor(max_workers=max(1, min(C.NCPU, len(jobs)))) as ex:
-        results = list(ex.map(process_chunk, jobs))
+    jobs = [(res.seed, k, min(chunk, n1 - k * chunk), exe, driver) for k in range((n1 + chunk - 1) // chunk)]
+    try:
+        with concurrent.futures.ProcessPoolExecutor(max_workers=max(1, min(C.NCPU, len(jobs)))) as ex:
+            results = list(ex.map(process_chunk, jobs))
+    finally:
+        if driver:
+            os.unlink(driver)
     cov, pairs = collections.Counter(), collections.Counter()
     findings, mxs, cws = [], set(), set()
     for r in results:
@@ -510,7 +538,12 @@ def replay(res, rep):
     if not lines:
         print("replay file names a broken obligation without a failing input:", rep.get("broken"))
         return 1
-    nat, mod = run_both(exe, lines)
+    driver = private_driver()
+    try:
+        nat, mod = run_both(exe, lines, driver)
+    finally:
+        if driver:
+            os.unlink(driver)
     rc = 0
     for i, l in enumerate(lines):
         print("state   :", l[:300], "...")
